@@ -11,7 +11,7 @@ namespace Aqua.CanopyCoverReal
 open Real Aqua Aqua.Response
 
 theorem powCubeNonneg_real : PowCubeNonneg realFn :=
-  ⟨fun _ _ => (Real.exp_pos _).le⟩
+  ⟨fun _ hx => realFn_pow_nonneg hx 3⟩
 
 /-- the parameters `canopy_cover` reads, built-in Wheat (`CalendarType = 1`) -/
 noncomputable def wheat : CcCrop ℝ :=
